@@ -84,7 +84,13 @@ fn check(t: &mut Tape, ctx: &mut Ctx) -> CheckResult {
     let al = gen::alpha(t, &sz);
     // starting point
     let mut m: Lax = match t.weighted(&[2, 1, 2]) {
-        0 => Lax::default(),
+        0 => {
+            // Hypergraph::discrete is the empty hypergraph with the given nodes
+            let ns: Vec<u32> = (0..t.choice(3)).map(|_| t.choice(al.nl) as u32).collect();
+            let h = open_hypergraphs::lax::Hypergraph::<Ob, Op>::discrete(crate::labels::obs(&ns));
+            ensure!(ctx, h.nodes == crate::labels::obs(&ns) && h.edges.is_empty() && h.adjacency.is_empty() && h.quotient.0.is_empty() && h.quotient.1.is_empty(), "state-equals-model", "Hypergraph::discrete is not discrete");
+            Lax::default()
+        }
         1 => {
             let a: Vec<u32> = (0..t.range(0, 3)).map(|_| t.choice(al.nl) as u32).collect();
             let b: Vec<u32> = (0..t.range(0, 3)).map(|_| t.choice(al.nl) as u32).collect();
@@ -174,6 +180,10 @@ fn check(t: &mut Tape, ctx: &mut Ctx) -> CheckResult {
                 let before = f.clone();
                 let r = lib(|| f.delete_nodes(&ids(&del)));
                 let rw = lib(|| hcopy.delete_nodes_witness(&ids(&del)));
+                // Hypergraph::delete_nodes is the same call without the witness
+                let mut hcopy2 = before.hypergraph.clone();
+                let r2 = lib(|| hcopy2.delete_nodes(&ids(&del)));
+                ensure!(ctx, r2.is_err() == rw.is_err() && (rw.is_err() || hcopy2 == hcopy), "delete-nodes", "step {step}: Hypergraph::delete_nodes differs from delete_nodes_witness");
                 ctx.sub("delete-nodes");
                 if bad {
                     ctx.class("out-of-range-delete");
@@ -209,7 +219,17 @@ fn check(t: &mut Tape, ctx: &mut Ctx) -> CheckResult {
                 hist.push_str(&format!(" delete_edges({:?})", del));
                 ctx.set_dump(format!("start: {}\nhistory:{}", start.pretty(), hist));
                 let before = f.clone();
-                let r = lib(|| f.delete_edges(&ids(&del).iter().map(|x| EdgeId(x.0)).collect::<Vec<_>>()));
+                let eids: Vec<EdgeId> = del.iter().map(|&x| EdgeId(x)).collect();
+                #[allow(deprecated)]
+                {
+                    // the deprecated alias behaves the same
+                    let mut h2 = f.hypergraph.clone();
+                    let mut h3 = f.hypergraph.clone();
+                    let a = lib(|| h2.delete_edge(&eids));
+                    let b = lib(|| h3.delete_edges(&eids));
+                    ensure!(ctx, a.is_err() == b.is_err() && (a.is_err() || h2 == h3), "delete-edges", "step {step}: delete_edge (deprecated) differs from delete_edges");
+                }
+                let r = lib(|| f.delete_edges(&eids));
                 ctx.sub("delete-edges");
                 if bad {
                     ctx.class("out-of-range-delete");
